@@ -136,11 +136,11 @@ def fmt_component(n, hardened, marker="'"):
     return [Dec(n)]
 
 
-def sym_index_list(B, length, tag="x"):
+def sym_index_list(B, length, tag="x", pattern=None):
     """list of `length` indexes in [0, 2^32), each with a concrete hardened flag (case split)"""
     xs = []
     for i in range(length):
-        h = bool(B.case(f"{tag}{i}_hardened", 2))
+        h = bool(B.case(f"{tag}{i}_hardened", 2)) if pattern is None else bool(pattern[i])
         n = B.int(f"{tag}{i}", HARD, 2 ** 32) if h else B.int(f"{tag}{i}", 0, HARD)
         xs.append((n, h))
     return xs
